@@ -89,7 +89,7 @@ def build(prop, corr_file=None):
             res['log'] += 'facts extraction failed: %r\n' % (e,)
             res['proof_broken'] = 'Gen/Facts.v (extraction failed: %r)' % (e,)
         ensure_makefile()
-        rc, out = sh('timeout 1500 make -k -j16 COQC="timeout 900 coqc" 2>&1 | tail -n 200', 1600, cwd=COQ)
+        rc, out = sh('timeout 2400 make -k -j16 COQC="timeout 1500 coqc" 2>&1 | tail -n 200', 2500, cwd=COQ)
         res['log'] += out
     props_v = 'Props/%s.v' % prop
     corr_v = corr_file or 'Corr/Corr_%s.v' % prop
